@@ -236,8 +236,23 @@ def sym_min(*a):
     return r
 
 
+class _MathProxy(object):
+    """stands for the `math` module inside a module under test that says `import math` /
+    `math.ceil(...)` instead of `from math import ceil` (same functions, other spelling)"""
+
+    def __getattr__(self, name):
+        if name in ('ceil', 'floor', 'sqrt'):
+            return MATH_BINDINGS[name]
+        return getattr(math, name)
+
+
 MATH_BINDINGS = {'ceil': sym_ceil, 'floor': sym_floor, 'sqrt': sym_sqrt, 'round': sym_round,
                  'int': sym_int, 'float': sym_float, 'max': sym_max, 'min': sym_min}
+MATH_BINDINGS['math'] = _MathProxy()
+# the unary protocols the builtins / the real math module fall back to
+SymFP.__ceil__ = lambda self: sym_ceil(self)
+SymFP.__floor__ = lambda self: sym_floor(self)
+SymFP.__round__ = lambda self, k=None: sym_round(self, k)
 
 
 def fp_to_float(v):
